@@ -191,6 +191,9 @@ func (x *X) judgeSnapshot(orig *World, s crashSnap, mB, mA *Model, ops []Op) {
 		rw.settle()
 	}()
 	for _, repo := range sortedKeys(obsv) {
+		if orig.tainted[repo] {
+			continue // the history itself gave up on this repository (content removed behind a tag through the blob endpoint)
+		}
 		o := obsv[repo]
 		for _, k := range sortedKeys(o.items) {
 			if strings.HasPrefix(o.items[k], "5") {
